@@ -183,6 +183,7 @@ func c20Exec(r *vf.Run, k c20Case) (keys, whats []string) {
 			if f.Msg == i && (pos == "none" || f.Pos != "RSET") {
 				pos = f.Pos
 				tk = c20TextNames[f.Text]
+				r.Outcome("reached/text-kind/" + tk)
 			}
 		}
 		for _, f := range k.Fails {
@@ -269,6 +270,9 @@ func c20Exec(r *vf.Run, k c20Case) (keys, whats []string) {
 			return
 		}
 		err2 := cl2.DialAndSendWithContext(context.Background(), msgs...)
+		if err2 == nil && len(sess2.Commits) == len(msgs) {
+			r.Outcome("reached/resend-committed-all")
+		}
 		if err2 != nil {
 			add("resend/error", fmt.Sprintf("re-sending the batch to an accepting server failed: %v", err2))
 		}
@@ -426,6 +430,10 @@ func init() {
 					})
 				}
 			})
+			r.Reached("reached/resend-committed-all")
+			for _, n := range c20TextNames {
+				r.Reached("reached/text-kind/" + n)
+			}
 		},
 		Replay: func(r *vf.Run, kase json.RawMessage) {
 			var k c20Case
